@@ -89,7 +89,7 @@ class Machine:
             if p is None:
                 return real_uuid4()
             p.counter += 1
-            return uuid.UUID(int=(p.id << 96) + p.counter)
+            return uuid.UUID(int=(p.id << 96) + (p.incarnation << 64) + p.counter)
         uuid.uuid4 = uuid4
         uuid.uuid1 = lambda *a, **k: uuid4()
         real_names = tempfile._get_candidate_names
@@ -103,7 +103,7 @@ class Machine:
                 if p is None:
                     return next(real_names())
                 p.counter += 1
-                return f"tmp{p.id}x{p.counter}"
+                return f"tmp{p.id}i{p.incarnation}x{p.counter}"
         names = Names()
         tempfile._get_candidate_names = lambda: names if m.current is not None else real_names()
         real_urandom = os.urandom
@@ -113,13 +113,15 @@ class Machine:
             if p is None:
                 return real_urandom(n)
             p.counter += 1
-            return hashlib.sha256(f"{p.id}:{p.counter}".encode()).digest()[:n].ljust(n, b"\0")
+            return hashlib.sha256(f"{p.id}:{p.incarnation}:{p.counter}".encode()).digest()[:n].ljust(n, b"\0")
         os.urandom = urandom
 
 
 class VProc:
-    def __init__(self, machine, pid, body):
-        self.m, self.id, self.body = machine, pid, body
+    def __init__(self, machine, pid, body, incarnation=0):
+        # pid: what os.getpid() answers (1000 + pid); incarnation: distinguishes two processes that got the same pid
+        # (the sources of randomness - uuid4, urandom, temporary names - depend on both)
+        self.m, self.id, self.body, self.incarnation = machine, pid, body, incarnation
         self.sem = threading.Semaphore(0)
         self.image = machine.fresh_image()
         self.hist = hashlib.sha256()
@@ -277,11 +279,11 @@ def explore(machine, vfs0, bodies, bound=None, max_runs=200000, on_complete=None
                 max_preemptions=max_pre, secs=round(time.perf_counter() - t0, 2))
 
 
-def run_sequential(machine, vfs, body, kill_at=None, pid=0):
+def run_sequential(machine, vfs, body, kill_at=None, pid=0, incarnation=0):
     """Runs one virtual process to completion on `vfs` (mutated in place). With kill_at=k the process is killed
     at its k-th file-system primitive: that primitive and all later ones are refused.
     -> (result, number of primitives executed, trace)"""
-    p = VProc(machine, pid, body)
+    p = VProc(machine, pid, body, incarnation)
     state = {"n": 0, "dead": False}
     trace = []
 
